@@ -191,6 +191,29 @@ func init() {
 		r.Eval(evals)
 		r.DistinctN(evals)
 
+		// --- ordering at the edge of the window: two times just under 2^31 s apart (the seconds fields of
+		// their timestamps differ by exactly 2^31 while the times themselves are closer than that)
+		if r.Only() == "" {
+			var n int64
+			erng := r.Rng("c04/edge")
+			for _, sec := range []int64{ntpEpochUnix + 5, 0, 1700000000, ntpEpochUnix + eraSecs - 1, ntpEpochUnix + eraSecs, ntpEpochUnix + eraSecs + halfEra - 3, ntpEpochUnix + 3*eraSecs + 77} {
+				for _, ns := range []int64{0, 1, 499999999, 500000000, 999999998, 999999999, erng.Int64N(1e9)} {
+					for _, short := range []int64{1, 2, 500000000, 999999999, 1000000000, 1000000001, 1 + erng.Int64N(3e9)} {
+						t := time.Unix(sec, ns).UTC()
+						u := t.Add(time.Duration(halfEra)*time.Second - time.Duration(short))
+						a, b := ntp.Time64FromTime(t), ntp.Time64FromTime(u)
+						n++
+						if !a.Before(b) || !b.After(a) || b.Before(a) || a.After(b) {
+							r.Violation("Time64.Before/After|wrong-value:disagrees with the order of two times less than 2^31 s apart", fmt.Sprintf("edge.%d.%d.%d", sec, ns, short),
+								map[string]any{"t": t.String(), "u": u.String(), "short_of_2^31_s_by_ns": short})
+						}
+					}
+				}
+			}
+			r.Eval(n)
+			r.DistinctN(n)
+			r.Class("Time64 order just inside the 2^31 s window")
+		}
 		// --- sub-second sweep: all 10^9 nanosecond values (thorough) or a stride (quick)
 		stride := int64(r.Pick(997, 1))
 		secsFor := []int64{1700000000, ntpEpochUnix + eraSecs - 1, ntpEpochUnix + eraSecs, ntpEpochUnix + 2*eraSecs + 5}
